@@ -136,6 +136,8 @@ func checkC12(c *Ctx, r *Report, tier string) {
 	round5(c, r, "C12")
 	round6(c, r, "C12")
 	round7(c, r, "C12")
+	round8(c, r, "C12")
+
 	r.Rule("C12.R1", "validation must-pass-through: from every RPC root of the three client services, every path to a proposer whose payload carries a vector, and to an index search, passes a dimension guard on that vector", 5)
 	r.Rule("C12.R2", "panic-capable constructs on untrusted operands reachable from an RPC root or an apply root need a dominating guard: Must-style helpers on request bytes, remainder/division by a stored count, rand.Intn(len) of a possibly empty list, &x[0] of a possibly empty vector, a write into a possibly nil request map, a make sized by a request number without upper bound", 12)
 	r.Rule("C12.R3", "apply-fatal parses are proposer-guaranteed: every id that an apply function parses with a fatal error path is, at every proposer of that message, produced by uuid.UUID.Bytes() or validated before the proposal", 4)
